@@ -225,6 +225,65 @@ def h_parse_nest(outer: int, opens: List[int], inner: int, nl: bool):
         reached("else_then_break_in_if_in_loop")
 
 
+# Line numbers after constructs that SPAN LINES.  <= M leading tokens chosen by symbolic index from a pool
+# of comments / expressions / directives / escapes / literal text with 0..2 newlines INSIDE them, then a
+# final token that is malformed (or a valid tag, whose recorded line is then compared), then an optional
+# trailer.  All error tokens but one sit on a single line, so the reference interval is one exact line.
+ML = ["{#\n\n#}", "{# #}", "{{ v\n }}", "{{\nv\n}}", "{% set a = (\n1) %}", "{% raw v\n %}", "t\n\nt", "\n",
+      "{% if x\n %}t\n{% end\n %}", "{{!\n", "{% comment\n\n %}", "{#\n#}{#\n#}", "{% apply f\n %}{# #}{% end %}",
+      "{{{ v\n}}}", "t"]
+ERRTOK = ["{% end %}", "{% bogus %}", "{{", "{% else %}", "{{ }}", "{#", "{% break %}", "{% set %}", "{{ w }}",
+          "{%\n%}", "{% if y %}", "{%"]
+TRAIL = ["", "\n\nt", "\nt{ }\n"]
+
+
+def pre_parse_lines(pre: List[int], err: int, trail: int) -> bool:
+    if not (len(pre) <= P.M and 0 <= err < P.NE and 0 <= trail < P.NTR):
+        return False
+    for i in pre:
+        if not 0 <= i < P.NML:
+            return False
+    return in_shard(err)
+
+
+@harness(pre=pre_parse_lines, quick=dict(M=2, NML=10, NE=9, NTR=2, timeout=100, reach_timeout=100),
+         thorough=dict(M=3, NML=len(ML), NE=len(ERRTOK), NTR=len(TRAIL), timeout=1400),
+         nshards=dict(quick=9, thorough=12),
+         reach=["error_after_multiline_comment", "error_after_multiline_expr", "error_on_line_5_or_later",
+                "valid_tag_line_after_multiline"],
+         units=["template._parse", "template._TemplateReader.consume", "template._TemplateReader.raise_parse_error",
+                "template.Template.__init__"],
+         stubs=["text = ML[i] for i in pre (<= M) + ERRTOK[err] + TRAIL[trail]; ML=%r ERRTOK=%r TRAIL=%r "
+                "(first NML / NE / NTR entries in quick)" % (ML, ERRTOK, TRAIL), PRINT_STUB],
+         outside=["more than M leading tokens", "constructs outside the pools"])
+def h_parse_lines(pre: List[int], err: int, trail: int):
+    """ParseError names the line the malformed construct is really on, after comments / expressions /
+    directives / text that span several lines (and valid tags record their own line)."""
+    head = "".join([ML[i] for i in pre])
+    text = head + ERRTOK[err] + TRAIL[trail]
+    line = 1 + head.count("\n")              # the line the final token starts on, counted independently
+    r = compare_parse(text)
+    if err <= 7:
+        # single-line malformed token: exact line, through the public constructor as well
+        assert r == "err", "malformed %r accepted" % (text,)
+        try:
+            T.Template(text, name="t.txt")
+            made = None
+        except T.ParseError as e:
+            made = e
+        assert made is not None and made.lineno == line, \
+            "ParseError names line %r, the malformed tag is on line %d of %r" % (
+                made.lineno if made else None, line, text)
+        if len(pre) > 0 and pre[-1] == 0:
+            reached("error_after_multiline_comment")
+        if len(pre) > 0 and (pre[-1] == 2 or pre[-1] == 3):
+            reached("error_after_multiline_expr")
+        if line >= 5:
+            reached("error_on_line_5_or_later")
+    if err == 8 and r == "ok" and line >= 3:
+        reached("valid_tag_line_after_multiline")
+
+
 WSA = " \t\nab<"
 
 
